@@ -12,7 +12,7 @@ From DW Require Import PyStr StrConv EnvModel EnvSpec EnvProofs T_LetterCase.
    specification is deterministic (no two variables with the same cleaned name compete) the result
    EQUALS `ref_resolve`; elsewhere it is ONE OF the admitted sources (the implementation's choice
    depends on set iteration order).  The invariant and environ are preserved.
-   Hypothesis `safe_field`: excludes the region of the open defect F22 (non-empty prefix together
+   Hypothesis `safe_field`: excludes the region of the open defect F37 (non-empty prefix together
    with a tuple of candidate names), refuted below. *)
 Theorem C18_pure :
   forall st e p prefix kw fs,
@@ -99,15 +99,15 @@ Theorem C18_priority_table :
 Proof. exact priority_table. Qed.
 Print Assumptions C18_priority_table.
 
-(* OPEN DEFECT F22 (refutation of the full statement without `safe_cls`): prefix 'P_' and
+(* OPEN DEFECT F37 (refutation of the full statement without `safe_cls`): prefix 'P_' and
    x = env_field(('Q', 'A')) with default; P_A=1 is set.  The specification gives x <- P_A = "1"; the
    model (as the code) looks up the single name  P_('Q', 'A')  and falls to the default. *)
 Theorem C18_refuted_prefix_tuple :
-  a_reload f22_args = true /\ safe_cls f22_cls f22_args = false /\
-  snd (instantiate (init_state f22_os) f22_cls f22_args) = OInstance [SDefault] /\
-  ref_resolve (overlay f22_os [] []) PScreaming (S "P_") [] (c_fields f22_cls) = [SEnv (S "P_A") (S "1")] /\
-  ~ adm_outcome (overlay f22_os (eff_secrets f22_cls f22_args) (eff_dotenv f22_cls f22_args))
-      f22_cls f22_args (snd (instantiate (init_state f22_os) f22_cls f22_args)).
+  a_reload f37_args = true /\ safe_cls f37_cls f37_args = false /\
+  snd (instantiate (init_state f37_os) f37_cls f37_args) = OInstance [SDefault] /\
+  ref_resolve (overlay f37_os [] []) PScreaming (S "P_") [] (c_fields f37_cls) = [SEnv (S "P_A") (S "1")] /\
+  ~ adm_outcome (overlay f37_os (eff_secrets f37_cls f37_args) (eff_dotenv f37_cls f37_args))
+      f37_cls f37_args (snd (instantiate (init_state f37_os) f37_cls f37_args)).
 Proof. exact refuted_prefix_tuple. Qed.
 Print Assumptions C18_refuted_prefix_tuple.
 
